@@ -38,6 +38,8 @@ Theorem C16_buf_step_conservation : forall (s : st) (o : op) (s' : st) (r : res)
   | Feed d => lg = d /\ src s' = src s
   | Until d m fs | CUntil _ d m fs =>
       exists k, src s' = fetch_rest k (knd s) (src s) /\ lg = fetch_arrivals k (knd s) (src s) fs
+  | Receive n fs | CReceive _ n fs =>
+      exists item j, lg = item ++ concat (firstn j fs) /\ concat (src s) = item ++ concat (src s')
   | _ => concat (src s) = lg ++ concat (src s')
   end.
 Proof. exact step_conservation. Qed.
@@ -55,17 +57,35 @@ Theorem C16_buf_byte_stream_model : forall (n : nat) (c : list Z) (r : list (lis
 Proof. exact (fun n c r => conj (pull_byte_fits n c r) (fun p r' => pull_byte_bound n (c :: r) p r')). Qed.
 Print Assumptions C16_buf_byte_stream_model.
 
-(* ---- 2. receive(n): ValueError for n < 1; otherwise 1..n bytes (from the buffer alone when it is not empty) for
-        EVERY chunking of an object stream, empty items included (a byte stream must honour its contract of never
-        returning b""); EndOfStream only with nothing buffered and no byte left ---- *)
-Theorem C16_buf_receive_spec : forall (s : st) (n : Z) (s' : st) (r : res), step s (Receive n) = (s', r) ->
+(* ---- 2. receive(n) with feeds fs during its waits: ValueError for n < 1; otherwise 1..n bytes (from the buffer alone
+        when it is not empty) for EVERY chunking of an object stream, empty items included (a byte stream must honour
+        its contract of never returning b""); EndOfStream only when nothing was buffered and no byte is left (what
+        was fed during the wait is then in the buffer) ---- *)
+Theorem C16_buf_receive_spec : forall (s : st) (n : Z) (fs : list (list Z)) (s' : st) (r : res) (lg : list Z),
+  step_log s (Receive n fs) = (s', r, lg) ->
   ((n < 1)%Z -> r = RValueError /\ s' = s) /\
   ((1 <= n)%Z -> (knd s = KByte -> chunks_nonempty (src s)) ->
      (exists x, r = RBytes x /\ (1 <= length x <= Z.to_nat n)%nat /\
-                (buf s <> [] -> x = firstn (Z.to_nat n) (buf s) /\ src s' = src s)) \/
-     (r = REnd /\ buf s = [] /\ concat (src s) = [] /\ buf s' = [] /\ src s' = [])).
+                (buf s <> [] -> x = firstn (Z.to_nat n) (buf s) /\ src s' = src s /\ lg = [])) \/
+     (r = REnd /\ buf s = [] /\ concat (src s) = [] /\ src s' = [] /\ buf s' = lg)).
 Proof. exact buf_receive_spec. Qed.
 Print Assumptions C16_buf_receive_spec.
+
+(* an item received from the wrapped stream is handed out contiguously: a receive() that was parked on an empty
+   buffer returns the head of ONE item, keeps the rest of that item at the FRONT of the buffer, and whatever
+   feed_data put into the buffer while it waited follows the complete item.  This is the order in which a parked
+   receive() commits the bytes (its arrival log lg = item ++ fed data): the item was requested before the feed. *)
+Theorem C16_buf_receive_item_contiguous :
+  forall (s : st) (n : Z) (fs : list (list Z)) (s' : st) (x lg : list Z),
+  step_log s (Receive n fs) = (s', RBytes x, lg) -> buf s = [] ->
+  exists item j,
+    concat (src s) = item ++ concat (src s') /\
+    x = firstn (Z.to_nat n) item /\
+    buf s' = skipn (Z.to_nat n) item ++ concat (firstn j fs) /\
+    x ++ buf s' = item ++ concat (firstn j fs) /\
+    lg = item ++ concat (firstn j fs).
+Proof. exact buf_receive_item_contiguous. Qed.
+Print Assumptions C16_buf_receive_item_contiguous.
 
 Theorem C16_buf_chunks_nonempty_invariant : forall (ops : list op) (s : st),
   chunks_nonempty (src s) -> chunks_nonempty (src (final step s ops)).
@@ -184,32 +204,38 @@ Proof. exact buf_cancelled_consumes_nothing. Qed.
 Print Assumptions C16_buf_cancelled_consumes_nothing.
 
 Theorem C16_buf_entry_cancel : forall (s : st) (n : Z) (d : list Z) (m : Z) (fs : list (list Z)),
-  step_log s (CReceive 0 n) = (s, RCancelled, []) /\
+  step_log s (CReceive 0 n fs) = (s, RCancelled, []) /\
   step_log s (CExactly 0 n) = (s, RCancelled, []) /\
   step_log s (CUntil 0 d m fs) = (s, RCancelled, []).
 Proof. exact buf_entry_cancel. Qed.
 Print Assumptions C16_buf_entry_cancel.
 
 Theorem C16_buf_uncancelled_never_cancelled : forall (s : st) (o : op),
-  match o with CReceive _ _ | CExactly _ _ | CUntil _ _ _ _ => True | _ => snd (step s o) <> RCancelled end.
+  match o with CReceive _ _ _ | CExactly _ _ | CUntil _ _ _ _ => True | _ => snd (step s o) <> RCancelled end.
 Proof. exact buf_uncancelled_never_cancelled. Qed.
 Print Assumptions C16_buf_uncancelled_never_cancelled.
 
-(* ---- the tree before the fixes violated these clauses (F27, F28, F29: fixed in /repo) ---- *)
+(* ---- the tree before the fixes violated these clauses (F27, F28, F29, F43: fixed in /repo) ---- *)
 Theorem C16_buf_until_feed_refuted_pinned : exists s d m fs s' x lg,
   step_pinned s (Until d m fs) = (s', RBytes x, lg) /\ d <> [] /\ occurs d x.
 Proof. exact until_feed_refuted_pinned. Qed.
 Print Assumptions C16_buf_until_feed_refuted_pinned.
 
 Theorem C16_buf_receive_empty_refuted_pinned : exists s n s' lg,
-  knd s = KObject /\ (1 <= n)%Z /\ step_pinned s (Receive n) = (s', RBytes [], lg) /\ concat (src s) <> [].
+  knd s = KObject /\ (1 <= n)%Z /\ step_pinned s (Receive n []) = (s', RBytes [], lg) /\ concat (src s) <> [].
 Proof. exact receive_empty_refuted_pinned. Qed.
 Print Assumptions C16_buf_receive_empty_refuted_pinned.
 
+Theorem C16_buf_receive_item_split_refuted_pinned : exists s n fs s' x lg item,
+  src s = [item] /\ buf s = [] /\ step_pinned s (Receive n fs) = (s', RBytes x, lg) /\
+  x ++ buf s' <> item ++ concat fs /\ x ++ buf s' <> concat fs ++ item.
+Proof. exact receive_item_split_refuted_pinned. Qed.
+Print Assumptions C16_buf_receive_item_split_refuted_pinned.
+
 Theorem C16_buf_exactly_negative_refuted_pinned : exists c1 c2 n x1 x2 s1 s2 l1 l2,
   concat c1 = concat c2 /\ (n < 0)%Z /\
-  step_pinned (fst (fst (step_pinned (init KObject c1) (Receive 1%Z)))) (Exactly n) = (s1, RBytes x1, l1) /\
-  step_pinned (fst (fst (step_pinned (init KObject c2) (Receive 1%Z)))) (Exactly n) = (s2, RBytes x2, l2) /\
+  step_pinned (fst (fst (step_pinned (init KObject c1) (Receive 1%Z [])))) (Exactly n) = (s1, RBytes x1, l1) /\
+  step_pinned (fst (fst (step_pinned (init KObject c2) (Receive 1%Z [])))) (Exactly n) = (s2, RBytes x2, l2) /\
   x1 <> x2.
 Proof. exact exactly_negative_refuted_pinned. Qed.
 Print Assumptions C16_buf_exactly_negative_refuted_pinned.
